@@ -5,6 +5,7 @@ import optree
 from hypothesis import strategies as st
 
 from vlib import compare, gen, model, runner
+from vlib import universe as U
 
 # structure-determined predicates that are also invariant under the dict-kind equivalence
 PREFIX_PREDICATES = ['none', 'never', 'tuple2', 'anydict_has_a', 'is_cg', 'is_nt2']
@@ -172,6 +173,25 @@ class C07(runner.Prop):
                         ctx.fail('is_prefix/vs_model_reverse', f'B<=A is {back}; A={A} B={B}')
                     if e2 and back and (lt or (B < A)):
                         ctx.fail('order/antisymmetric', f'A={A} B={B}')
+            # (6b) the other operand flattened in another namespace: treespecs that recorded different namespaces are
+            # never in the prefix relation, a treespec without a recorded namespace is compatible with any
+            for other_ns in [n for n in ('', U.NS, U.NSF) if n != cfg['ns']][:2]:
+                cfg2 = dict(cfg, ns=other_ns)
+                m2 = model.Model.from_cfg(cfg2)
+                try:
+                    msb2 = m2.structure(b)
+                    B2 = optree.tree_structure(b, **gen.kw(cfg2))
+                    got2 = bool(A.is_prefix(B2))
+                    conv = (A <= B2, B2 >= A, bool(B2.is_suffix(A)))
+                except Exception as e:  # noqa: BLE001
+                    ctx.fail('cross_namespace/raises', f'{type(e).__name__}: {e}')
+                    continue
+                ns_ok = (not A.namespace) or (not B2.namespace) or A.namespace == B2.namespace
+                want2 = ns_ok and model.spec_prefix(msa, msb2)
+                if got2 != want2 or conv != (got2, got2, got2):
+                    ctx.fail('cross_namespace/is_prefix', f'A ns={A.namespace!r} B ns={B2.namespace!r}: is_prefix {got2} {conv}, expected {want2}; A={A} B={B2}')
+                if A.namespace and B2.namespace and A.namespace != B2.namespace:
+                    ctx.label('incompatible_namespaces')
             # (7) transitivity with a third tree
             if 'c' in case and e2:
                 c = gen.build(case['c'])
